@@ -91,7 +91,7 @@ theorem C10_readBitmap_never_oob (c : Cfg) (v nBlock : Nat) (root : Blk) (s : St
     | (.ok _, _) => True
     | (.fault f, _) => f.isOob = false := by
   have h := readBitmap_never_oob c v nBlock root s
-  unfold Safe at h
+  unfold Post NoOob at h
   rcases hr : run c (readBitmap v nBlock root) s with ⟨r, s'⟩
   rw [hr] at h
   cases r with
